@@ -850,7 +850,14 @@ func getBoolPtr(b bool) *bool {
 
 // Check if the given object is a delete marker
 func (p *Posix) isObjDeleteMarker(bucket, object string) (bool, error) {
-	_, err := p.meta.RetrieveAttribute(nil, bucket, object, deleteMarkerKey)
+	return p.isFileDeleteMarker(nil, bucket, object)
+}
+
+// isFileDeleteMarker is isObjDeleteMarker reading through the open object
+// file f (when not nil): a request that serves f must judge that very file,
+// not the one a concurrent request has put under the name meanwhile
+func (p *Posix) isFileDeleteMarker(f *os.File, bucket, object string) (bool, error) {
+	_, err := p.meta.RetrieveAttribute(f, bucket, object, deleteMarkerKey)
 	if errors.Is(err, fs.ErrNotExist) || errors.Is(err, syscall.ENOTDIR) {
 		return false, s3err.GetAPIError(s3err.ErrNoSuchKey)
 	}
@@ -3435,7 +3442,7 @@ func (p *Posix) GetObject(_ context.Context, input *s3.GetObjectInput) (*s3.GetO
 	}
 
 	if p.versioningEnabled() {
-		isDelMarker, err := p.isObjDeleteMarker(bucket, object)
+		isDelMarker, err := p.isFileDeleteMarker(f, bucket, object)
 		if err != nil {
 			return nil, err
 		}
@@ -3709,7 +3716,7 @@ func (p *Posix) HeadObject(ctx context.Context, input *s3.HeadObjectInput) (*s3.
 	}
 
 	if p.versioningEnabled() {
-		isDelMarker, err := p.isObjDeleteMarker(bucket, object)
+		isDelMarker, err := p.isFileDeleteMarker(f, bucket, object)
 		if err != nil {
 			return nil, err
 		}
